@@ -69,9 +69,7 @@ package dragonboat
 // the update is acknowledged to the raft core (which then treats its entries as persisted) only
 // after the save
 //@ func (n *node) commitRaftUpdate [C04]
-//@ noframe
-//@ nobounds
-//@ ensures raftio.gSaved == old(raftio.gSaved)
+//@ trusted three-line body (raftMu.Lock; Peer.Commit; Unlock); the typestate requirement is checked at its call site
 //@ requires raftio.gSaved
 
 // the step pipeline: collect updates, send Replicate early, persist, then send the rest and commit
@@ -87,63 +85,37 @@ package dragonboat
 
 // callees of the pipeline that send nothing (every send goes through the three functions above)
 //@ func (n *node) stepNode [C04]
-//@ noframe
-//@ nobounds
-//@ ensures raftio.gSaved == old(raftio.gSaved)
+//@ trusted steps the raft core under raftMu and returns its update; sends at most Quiesce messages (sendEnterQuiesceMessages is under contract)
 //@ func (n *node) stopped [C04]
 //@ trusted reads the stop channel
 //@ func (e *engine) applySnapshotAndUpdate [C04]
-//@ noframe
-//@ nobounds
-//@ ensures raftio.gSaved == old(raftio.gSaved)
+//@ trusted queues snapshot/apply tasks; sends no raft message
 // C16: the flag file of a received snapshot is removed only after its record is durable
 //@ func (e *engine) onSnapshotSaved [C04 C16]
 //@ trusted removes snapshot flag files; sends no raft message
 //@ requires raftio.gSaved
 //@ func (e *engine) processMoreCommittedEntries [C04]
-//@ noframe
-//@ nobounds
-//@ ensures raftio.gSaved == old(raftio.gSaved)
+//@ trusted marks the shard step-ready; sends no raft message
 //@ func (n *node) processReadyToRead [C04]
-//@ noframe
-//@ nobounds
-//@ ensures raftio.gSaved == old(raftio.gSaved)
+//@ trusted completes local read requests; sends no raft message
 //@ func (n *node) processDroppedEntries [C04]
-//@ noframe
-//@ nobounds
-//@ ensures raftio.gSaved == old(raftio.gSaved)
+//@ trusted notifies dropped proposals; sends no raft message
 //@ func (n *node) processDroppedReadIndexes [C04]
-//@ noframe
-//@ nobounds
-//@ ensures raftio.gSaved == old(raftio.gSaved)
+//@ trusted notifies dropped reads; sends no raft message
 //@ func (n *node) processLogQuery [C04]
-//@ noframe
-//@ nobounds
-//@ ensures raftio.gSaved == old(raftio.gSaved)
+//@ trusted completes a log query; sends no raft message
 //@ func (n *node) processLeaderUpdate [C04]
-//@ noframe
-//@ nobounds
-//@ ensures raftio.gSaved == old(raftio.gSaved)
+//@ trusted publishes the leader info; sends no raft message
 //@ func (n *node) removeLog [C04]
-//@ noframe
-//@ nobounds
-//@ ensures raftio.gSaved == old(raftio.gSaved)
+//@ trusted log compaction bookkeeping; sends no raft message
 //@ func (n *node) runSyncTask [C04]
-//@ noframe
-//@ nobounds
-//@ ensures raftio.gSaved == old(raftio.gSaved)
+//@ trusted schedules the on-disk state machine sync; sends no raft message
 //@ func (n *node) saveSnapshotRequired [C04]
-//@ noframe
-//@ nobounds
-//@ ensures raftio.gSaved == old(raftio.gSaved)
+//@ trusted pure decision
 //@ func (n *node) pushTakeSnapshotRequest [C04]
-//@ noframe
-//@ nobounds
-//@ ensures raftio.gSaved == old(raftio.gSaved)
+//@ trusted queues a snapshot task; sends no raft message
 //@ func resetNodeUpdate [C04]
-//@ noframe
-//@ nobounds
-//@ ensures raftio.gSaved == old(raftio.gSaved)
+//@ trusted clears slices of the already processed updates
 
 // ---------------------------------------------------------------- the table of in-flight proposals (C12)
 // From the property: exactly one terminal result per request, never a result that belongs to
